@@ -34,6 +34,7 @@ type Obligation struct {
 	Output  string
 	Bounded bool
 	Alts    []*Term // alternative (stronger) goals: the obligation holds if any of them is proved
+	GVKeys  map[string]string // solver-reported symbol -> input name
 }
 
 type namedTerm struct {
